@@ -5,6 +5,13 @@ Import ListNotations.
 From Cffi Require Import C37.Model.
 Open Scope Z_scope.
 
+(* ---------- the regenerated close paths do what the model of close relies on *)
+Lemma inline_sets_null_ok : inline_sets_null = true. Proof. reflexivity. Qed.
+Lemma inline_clears_ok : inline_clears = true. Proof. reflexivity. Qed.
+Lemma ool_sets_null_ok : ool_sets_null = true. Proof. reflexivity. Qed.
+Lemma ool_clears_ok : ool_clears = true. Proof. reflexivity. Qed.
+Ltac genfacts := rewrite ?inline_sets_null_ok, ?inline_clears_ok, ?ool_sets_null_ok, ?ool_clears_ok in *.
+
 (* ---------- list helpers *)
 Lemma upd_length {A} (l : list A) i x : length (upd l i x) = length l.
 Proof. revert i; induction l; destruct i; cbn; auto. Qed.
@@ -68,7 +75,7 @@ Lemma step_lib_refines d m L o m' L' r :
 Proof.
   intros HI H. unfold Inv_lib in *.
   destruct L as [md op dict props addr]; cbn [lmode lopen ldict lprops laddr] in *.
-  destruct o; cbn [step_lib spec_lib] in *;
+  destruct o; cbn [step_lib spec_lib] in *; genfacts;
     unfold fetch_fn, ool_globsupport, inline_prop, with_props, with_dict, with_addr, abs_lib in *;
     cbn [lmode lopen ldict lprops laddr amode aopen ataken] in *;
     brk; inv_pairs; cbn [lmode lopen ldict lprops laddr amode aopen ataken closed_exn];
@@ -175,7 +182,7 @@ Lemma closed_stays d m L o m' L' r :
 Proof.
   intros Ho H.
   destruct L as [md op dict props addr]; cbn [lmode lopen ldict lprops laddr] in *; subst op.
-  destruct o; cbn [step_lib] in H;
+  destruct o; cbn [step_lib] in H; genfacts;
     unfold fetch_fn, ool_globsupport, inline_prop, with_props, with_dict, with_addr in *;
     cbn [lmode lopen ldict lprops laddr] in *;
     brk; inv_pairs; cbn [lmode lopen laddr]; auto.
@@ -215,7 +222,7 @@ Qed.
 Lemma close_closes d s l : (l < length (libs s))%nat -> lib_closed (fst (step d s (OpClose l))) l.
 Proof.
   intros Hl. unfold step; cbn [op_lib]. destruct (nth_error (libs s) l) as [L|] eqn:HL.
-  - cbn [step_lib]. unfold lib_closed.
+  - cbn [step_lib]. genfacts. unfold lib_closed.
     destruct (lmode L) eqn:Hm; [|destruct (lopen L) eqn:Ho]; cbn;
       rewrite (nth_error_upd_same _ _ _ _ HL); eexists; split; eauto.
   - apply nth_error_None in HL. lia.
@@ -300,7 +307,7 @@ Theorem close_idempotent d s l :
   step d s1 (OpClose l) = (s1, snd (step d s (OpClose l))).
 Proof.
   unfold step; cbn [op_lib]. destruct (nth_error (libs s) l) as [L|] eqn:HL.
-  - cbn [step_lib]. destruct (lmode L) eqn:Hm; [|destruct (lopen L) eqn:Ho]; cbn [fst snd libs mem].
+  - cbn [step_lib]. genfacts. destruct (lmode L) eqn:Hm; [|destruct (lopen L) eqn:Ho]; cbn [fst snd libs mem].
     + rewrite (nth_error_upd_same _ _ _ _ HL). cbn. rewrite upd_upd. reflexivity.
     + rewrite (nth_error_upd_same _ _ _ _ HL). cbn. rewrite upd_upd. reflexivity.
     + rewrite (nth_error_upd_same _ _ _ _ HL). rewrite Hm, Ho. cbn. rewrite upd_upd. reflexivity.
@@ -347,7 +354,7 @@ Lemma step_lib_open_status d m L o m' L' r :
 Proof.
   intros Hn H.
   destruct L as [md op dict props addr]; cbn [lmode lopen ldict lprops laddr] in *.
-  destruct o; cbn [step_lib] in H;
+  destruct o; cbn [step_lib] in H; genfacts;
     unfold fetch_fn, ool_globsupport, inline_prop, with_props, with_dict, with_addr in *;
     cbn [lmode lopen ldict lprops laddr] in *;
     brk; inv_pairs; cbn [lmode lopen laddr]; auto; exfalso; eapply Hn; eauto.
